@@ -80,7 +80,7 @@ def tlc_many(ctx, jobs, workers=6):
     if len(jobs) <= 1:
         return [ctx.tlc(m, c, **kw) for m, c, kw in jobs]
     with ThreadPoolExecutor(len(jobs)) as ex:
-        futs = [ex.submit(ctx.tlc, m, c, workers=workers, **kw) for m, c, kw in jobs]
+        futs = [ex.submit(ctx.tlc, m, c, **dict(dict(workers=workers), **kw)) for m, c, kw in jobs]
         return [f.result() for f in futs]
 
 
@@ -135,6 +135,86 @@ def build_obj(sysin):
     return observe_build(lambda: ReactionSystem(make_reactions(sysin), make_substances(sysin)))
 
 
+CFG_KWARGS = {
+    "default": {},
+    "checks_balance": {"checks": ["balance"]},
+    "checks_all_listed": {"checks": ("balance", "substance_keys", "duplicate", "duplicate_names")},
+    "dont_check_duplicate": {"dont_check": {"duplicate"}},
+    "dont_check_balance": {"dont_check": {"balance"}},
+    "checks_none": {"checks": ()},
+    "checks_without_balance": {"checks": ["substance_keys", "duplicate"]},
+}
+FORMS = ["list", "tuple", "odict", "dict", "names+factory", "set+factory", "list+sort"]
+SORTING_FORMS = ("dict", "set+factory", "list+sort")   # a plain dict counts as unordered: the constructor sorts
+
+
+def build_variant(sysin, cfg_name, form):
+    """Constructor with one of the check configurations and one of the accepted forms of the
+    substances argument (all of them carry the compositions of the case)."""
+    from chempy import ReactionSystem
+    from collections import OrderedDict
+    subs = make_substances(sysin)
+    table = {s.name: s for s in subs}
+    kw = dict(CFG_KWARGS[cfg_name])
+    if form == "list":
+        arg = list(subs)
+    elif form == "tuple":
+        arg = tuple(subs)
+    elif form == "odict":
+        arg = OrderedDict((s.name, s) for s in subs)
+    elif form == "dict":
+        arg = {s.name: s for s in subs}
+    elif form == "names+factory":
+        arg = [s.name for s in subs]
+        kw["substance_factory"] = table.__getitem__
+    elif form == "set+factory":
+        arg = set(s.name for s in subs)
+        kw["substance_factory"] = table.__getitem__
+    elif form == "list+sort":
+        arg = list(subs)
+        kw["sort_substances"] = True
+    else:
+        raise ValueError(form)
+    return observe_build(lambda: ReactionSystem(make_reactions(sysin), arg, **kw))
+
+
+def observe_check_balance(rsys, strict, throw):
+    try:
+        r = rsys.check_balance(strict=strict, throw=throw)
+    except Exception as e:  # noqa
+        m = _KEY_RE.search(str(e))
+        return {"ev": "CheckBalance", "strict": strict, "throw": throw, "raised": True, "exc": type(e).__name__,
+                "key": int(m.group(1)) if m else -999, "result": False}
+    return {"ev": "CheckBalance", "strict": strict, "throw": throw, "raised": False, "exc": "", "key": -999,
+            "result": bool(r)}
+
+
+def observe_violations(rsys, i, keys_arg, known_keys=None):
+    """rxn.composition_violation(substances, composition_keys=None | True | explicit list)."""
+    rxn = rsys.rxns[i]
+    if keys_arg is True:
+        net, keys = rxn.composition_violation(rsys.substances, True)
+        allkeys = True
+    elif keys_arg is None:
+        net = rxn.composition_violation(rsys.substances)
+        keys, allkeys = (list(known_keys) if known_keys is not None else None), True
+    else:
+        net = rxn.composition_violation(rsys.substances, list(keys_arg))
+        keys, allkeys = list(keys_arg), False
+    netq = [enc_q(x) for x in net]
+    if any(e is None or e[1] != 1 for e in netq):
+        return None
+    return {"ev": "Violations", "i": i + 1, "keys": None if keys is None else [int(k) for k in keys],
+            "net": [e[0] for e in netq], "allkeys": allkeys}
+
+
+def observe_charge_violation(rsys, i):
+    e = enc_q(rsys.rxns[i].charge_neutrality_violation(rsys.substances))
+    if e is None or e[1] != 1:
+        return None
+    return {"ev": "ChargeViolation", "i": i + 1, "v": e[0]}
+
+
 def build_text(sysin):
     """Text route: reaction TEXT from the spec.  Substances are formula-defined (parsed from their
     names) unless the system contains a substance that is composed of nothing (third body, photon:
@@ -146,6 +226,13 @@ def build_text(sysin):
         return observe_build(lambda: ReactionSystem.from_string(
             txt, OrderedDict((s.name, s) for s in make_substances(sysin))))
     return observe_build(lambda: ReactionSystem.from_string(txt, " ".join(names_of(sysin))))
+
+
+def build_text_derived(sysin):
+    """from_string without a substances argument: the substances are those that occur in the text,
+    formula-defined, sorted by name."""
+    from chempy import ReactionSystem
+    return observe_build(lambda: ReactionSystem.from_string("\n".join(sysin["lines"])))
 
 
 # ------------------------------------------------------------------ projections
@@ -223,15 +310,22 @@ def project_linear_form(expr, elim_idx, deps, y0s, sympy):
     return {"elim": elim_idx + 1, "u": enc[0], "w": enc[1], "const": enc[2]}
 
 
-def observe_lindep(odesys, extra, preferred):
-    """-> ("forms", [event fields...]) | ("refused", msg) | ("unencodable", why)."""
+def observe_lindep(odesys, extra, preferred, repeat=False, y0=None):
+    """-> ("forms", [event fields...]) | ("refused", msg) | ("unencodable", why).
+    repeat: the solver object is called twice and the second answer is projected;
+    y0: integer initial values instead of symbols (the constant then carries u.y0)."""
     import sympy
     names = list(odesys.names)
     y0s = [sympy.Symbol("y0_%d" % i) for i in range(len(names))]
-    y0 = {odesys.dep[i]: y0s[i] for i in range(len(names))}
+    if y0 is None:
+        y0map = {odesys.dep[i]: y0s[i] for i in range(len(names))}
+    else:
+        y0map = {odesys.dep[i]: sympy.Integer(int(y0[i])) for i in range(len(names))}
     try:
         solver = extra["linear_dependencies"](preferred)
-        exprs = solver(None, y0, None, sympy)
+        exprs = solver(None, y0map, None, sympy)
+        if repeat:
+            exprs = solver(None, y0map, None, sympy)
     except ValueError as e:
         return "refused", str(e)[:120]
     forms = []
@@ -241,6 +335,8 @@ def observe_lindep(odesys, extra, preferred):
         f = project_linear_form(expr, idx, deps, y0s, sympy)
         if f is None:
             return "unencodable", "not a rational linear form: %s" % (expr,)
+        if y0 is not None:
+            f = {"elim": f["elim"], "u": f["u"], "const": f["const"], "y0": [int(v) for v in y0]}
         forms.append(f)
     return "forms", forms
 
